@@ -48,6 +48,13 @@ type gHub struct {
 	notify   chan struct{}
 	pass     []string // calls whose key starts with one of these are logged but never held
 	problems []string // invariant violations seen inside handlers (aliasing buffers)
+	// only, when not nil, restricts holding to the calls with these keys: every other call is logged and runs freely
+	// (deep pipelines in which only the last few calls before a CLOSE are held).
+	only map[string]bool
+	// indexes over calls, so that pipelines of 10^5 calls do not cost a scan of the whole log per call
+	live   []*gCall // calls that have not returned yet (log order)
+	gates  []*gCall // calls that were held on entry (log order)
+	closes []*gCall // Close calls (log order)
 }
 
 func newHub(hold bool) *gHub {
@@ -72,7 +79,7 @@ func (h *gHub) enter(op, obj, base string, numbered bool, off int64, buf []byte,
 	if cap(buf) > 0 && len(buf) > 0 {
 		c.bufLo = uintptr(unsafe.Pointer(unsafe.SliceData(buf)))
 		c.bufHi = c.bufLo + uintptr(len(buf))
-		for _, o := range h.calls {
+		for _, o := range h.live {
 			if o.Fin == 0 && o.bufHi > o.bufLo && c.bufLo < o.bufHi && o.bufLo < c.bufHi {
 				h.problems = append(h.problems, fmt.Sprintf("buffer of %s (%s) overlaps the buffer of the still running %s (%s)", c.Key, c.Op, o.Key, o.Op))
 			}
@@ -86,7 +93,17 @@ func (h *gHub) enter(op, obj, base string, numbered bool, off int64, buf []byte,
 			c.gated = false
 		}
 	}
+	if h.only != nil && !h.only[key] {
+		c.gated = false
+	}
 	h.calls = append(h.calls, c)
+	h.live = append(h.live, c)
+	if c.gated {
+		h.gates = append(h.gates, c)
+	}
+	if op == "Close" {
+		h.closes = append(h.closes, c)
+	}
 	h.byKey[key] = append(h.byKey[key], c)
 	var d time.Duration
 	if h.sleep != nil {
@@ -111,6 +128,12 @@ func (h *gHub) leave(c *gCall, n int, err error, data []byte) {
 	}
 	h.seq++
 	c.Fin = h.seq
+	for i, o := range h.live {
+		if o == c {
+			h.live = append(h.live[:i], h.live[i+1:]...)
+			break
+		}
+	}
 	h.broadcast()
 	h.mu.Unlock()
 }
@@ -118,7 +141,7 @@ func (h *gHub) leave(c *gCall, n int, err error, data []byte) {
 // blocked returns the keys of the calls that sit on a closed gate.
 func (h *gHub) blockedLocked() []string {
 	var out []string
-	for _, c := range h.calls {
+	for _, c := range h.gates {
 		if c.gated && !c.released && c.Fin == 0 {
 			out = append(out, c.Key)
 		}
@@ -159,11 +182,21 @@ func (h *gHub) wait(deadline time.Duration, pred func() (done bool, err error)) 
 // waitBlocked waits until exactly the calls named by want sit on their gates. A blocked call outside want is an
 // immediate error (calls only ever get added until the harness opens a gate).
 func (h *gHub) waitBlocked(want []string, deadline time.Duration) error {
+	return h.waitBlockedUnless(want, deadline, nil)
+}
+
+// waitBlockedUnless is waitBlocked that gives up as soon as abort (called with the hub locked) returns an error.
+func (h *gHub) waitBlockedUnless(want []string, deadline time.Duration, abort func() error) error {
 	w := map[string]bool{}
 	for _, k := range want {
 		w[k] = true
 	}
 	return h.wait(deadline, func() (bool, error) {
+		if abort != nil {
+			if err := abort(); err != nil {
+				return false, err
+			}
+		}
 		b := h.blockedLocked()
 		for _, k := range b {
 			if !w[k] {
@@ -198,7 +231,7 @@ func (h *gHub) release(key string, deadline time.Duration) error {
 func (h *gHub) releaseAll() {
 	h.mu.Lock()
 	h.hold = false
-	for _, c := range h.calls {
+	for _, c := range h.gates {
 		if c.gated && !c.released && c.Fin == 0 {
 			c.released = true
 			close(c.gate)
